@@ -53,6 +53,7 @@ type patchCase struct {
 	expect any
 	why    string
 	input  any // value entering the transform chain (if known)
+	start  any // value entering the chain, for attribution of deviations
 }
 
 func typeLabel(t v1.PatchType) string {
@@ -177,7 +178,7 @@ func genPatch(r *rand.Rand, typ v1.PatchType, xr, cd map[string]any) patchCase {
 		case fp.status == stMissing && pol == "Required":
 			pc.pred, pc.why = pMustErr, "required patch, source path missing"
 		case fp.status == stFound:
-			pc.input = fp.val
+			pc.input, pc.start = fp.val, fp.val
 			res := refChain(pc.p.Transforms, fp.val)
 			switch {
 			case res.k == rErr:
@@ -254,7 +255,7 @@ func genPatch(r *rand.Rand, typ v1.PatchType, xr, cd map[string]any) patchCase {
 		case allFound && (comb.Strategy != v1.CombineStrategyString || comb.String == nil):
 			pc.pred, pc.why = pParamErr, "combine strategy/config invalid"
 		case allFound:
-			pc.input = pc.froms[0].val
+			pc.input, pc.start = pc.froms[0].val, start
 			res := refChain(pc.p.Transforms, start)
 			switch {
 			case res.k == rErr:
@@ -610,7 +611,11 @@ func runPatchCase(c *kit.Ctx, name string, r *rand.Rand, st stats) {
 		st.inc("patch_checked_required_error")
 	case pChainErr:
 		if o1.err == nil {
-			c.Violate("patch:"+pc.label+"-invalid-transform-no-error", name, "reference expects an error ("+pc.why+"), got nil", witness())
+			if k, wh := attribute(pc.p.Transforms, pc.start); k != "" {
+				c.Violate(k, name, "observed through a "+pc.label+" patch: "+wh, witness())
+			} else {
+				c.Violate("patch:"+pc.label+"-invalid-transform-no-error", name, "reference expects an error ("+pc.why+"), got nil", witness())
+			}
 		}
 		st.inc("patch_checked_transform_error")
 	case pParamErr:
@@ -621,14 +626,22 @@ func runPatchCase(c *kit.Ctx, name string, r *rand.Rand, st stats) {
 	case pValue:
 		st.inc("patch_checked_value")
 		if o1.err != nil {
-			c.Violate("patch:"+pc.label+"-unexpected-error", name, "source present, chain and target path valid, but: "+o1.err.Error(), witness())
+			if k, wh := attribute(pc.p.Transforms, pc.start); k != "" {
+				c.Violate(k, name, "observed through a "+pc.label+" patch: "+wh, witness())
+			} else {
+				c.Violate("patch:"+pc.label+"-unexpected-error", name, "source present, chain and target path valid, but: "+o1.err.Error(), witness())
+			}
 			break
 		}
 		got, gst := walk(dst1, pc.to.segs)
 		if gst != stFound || !sameJSON(pc.expect, got) {
 			w := witness()
 			w["got"] = fmt.Sprintf("%#v (%s)", got, gst)
-			c.Violate("patch:"+pc.label+"-wrong-value", name, "the target path does not hold the documented value", w)
+			if k, wh := attribute(pc.p.Transforms, pc.start); k != "" {
+				c.Violate(k, name, "observed through a "+pc.label+" patch: "+wh, w)
+			} else {
+				c.Violate("patch:"+pc.label+"-wrong-value", name, "the target path does not hold the documented value", w)
+			}
 		}
 	}
 	// wildcard target: every expansion that already existed holds the value
